@@ -2700,6 +2700,8 @@ def fixed_witnesses():
       {"kind": "Linear", "tag": "none_string_bound", "wseed": 21, "n": 3,
        "kw": {"num_input_dims": 3, "units": 2, "monotonicities": [1, 1, 0], "range_dominances": [T(0, 1)],
               "input_min": [0.0, 0.0, "none"], "input_max": [1.0, 2.0, 3.0]}},
+      {"kind": "Linear", "tag": "D47", "wseed": 22, "n": 2,
+       "kw": {"num_input_dims": 2, "units": 1, "monotonicities": [], "normalization_order": 1}},
       {"kind": "Linear", "tag": "D59", "wseed": 15, "n": 3,
        "kw": {"num_input_dims": 3, "units": 1, "monotonicities": [1, 1, 1],
               "monotonic_dominances": [T(0, 1), T(1, 2), T(2, 0)]}},
@@ -3079,9 +3081,12 @@ def _p12(kind, kw, stage, exc, msg, desc):
 
 @pattern("linear_constraints_none_monotonicities")
 def _p13(kind, kw, stage, exc, msg, desc):
-  # D47: standalone LinearConstraints with monotonicities None / [] (the Linear layer always passes a list)
-  return (kind == "LinearConstraints" and stage == "project" and exc == "TypeError" and
-          "'NoneType' object is not iterable" in msg and _falsy_monos(kw))
+  # D47: LinearConstraints with monotonicities None / [] - standalone, or created by a Linear layer that was given
+  # monotonicities=[] together with a normalization_order (the only way the layer attaches a constraint without
+  # monotonicities; found by thorough seed 71)
+  return (stage == "project" and exc == "TypeError" and "'NoneType' object is not iterable" in msg and
+          _falsy_monos(kw) and
+          (kind == "LinearConstraints" or (kind == "Linear" and bool(kw.get("normalization_order")))))
 
 
 @pattern("cyclic_equal_slopes_initializer")
